@@ -235,6 +235,15 @@ fn spelling_cases(rep: &mut Rep, r: &mut Rng, exhaustive: bool) {
                     let v = if r.bool() && lit <= max { lit } else { rnd.min(max) };
                     format!("{v}")
                 },
+                {
+                    // a fractional value whose whole part has any number of digits the unit allows within 10 000 years (a
+                    // route that switches to integer arithmetic for large counts must keep the fraction)
+                    let max = (100 * NPC / unit_ns(*u)) as u64;
+                    let digits = 1 + r.below(format!("{max}").len() as u64) as u32;
+                    let whole = (10u64.pow(digits - 1) + r.below(9 * 10u64.pow(digits - 1))).min(max.saturating_sub(1));
+                    let frac = *r.pick(&["5", "25", "75", "125", "0625", "1", "9", "001", "999"]);
+                    format!("{whole}.{frac}")
+                },
             ]
         };
         for v in vals {
